@@ -1,27 +1,112 @@
-(* Model/ReqBody.v - which body parseRequestBody (middleware.go) prepares (C17).  Executable. *)
-From ReqV Require Export Lib.Bytes Model.Form.
+(* Model/ReqBody.v - which body parseRequestBody (middleware.go) prepares (C17).  Executable.
 
-Definition form_ct : bytes := bs "application/x-www-form-urlencoded".
+   Go code modelled (after the repairs recorded in findings.d/C17.json):
+     client.go     isPayloadForbid (method table regenerated into Gen/PayloadForbid.v)
+     middleware.go parseRequestBody (dispatch), handleMultiPart / writeMultiPart,
+                   handleFormData, handleOrderedFormData, handleMarshalBody
+     internal/util IsXMLType; internal/header content-type constants (Gen/ContentTypes.v) *)
+From ReqV Require Export Lib.Bytes Model.Form Model.Multipart.
+From ReqV Require Import Gen.PayloadForbid Gen.ContentTypes.
 
-(* parseRequestBody, form branch:
-     if len(c.FormData) > 0 { r.SetFormDataFromValues(c.FormData) }
-     if len(r.FormData) > 0 { handleFormData } else if len(r.OrderedFormData) > 0 { handleOrderedFormData } *)
+Definition form_ct : bytes := gen_form_content_type.
+Definition json_ct : bytes := gen_json_content_type.
+
+(* isPayloadForbid: (method, only-when-AllowGetMethodPayload-is-off) *)
+Definition payload_forbidden (method : bytes) (allow_get : bool) : bool :=
+  existsb (fun e => bytes_eqb (fst e) method && (if snd e : bool then negb allow_get else true))
+          payload_forbid_table.
+
+(* parseRequestBody: if len(c.FormData) > 0 { r.SetFormDataFromValues(c.FormData) } *)
 Definition merged_form (rf cf : form) : form :=
   match cf with [] => rf | _ => merge_form rf cf end.
 
 Inductive form_plan :=
 | FNone                 (* neither kind of form data: the later branches decide *)
 | FBody (b : bytes)     (* Content-Type := form_ct, body b *)
-| FBadOrdered.          (* odd ordered list: Content-Type := form_ct, r.error set, no body set *)
+| FBadOrdered.          (* odd ordered list: errBadOrderedFormData *)
 
+(* url-encoded branch: ordered pairs first (handleOrderedFormData), followed by the plain form
+   data (Values.Encode) when both are present; plain alone = handleFormData *)
 Definition form_plan_of (rf cf : form) (ordered : list bytes) : form_plan :=
-  match merged_form rf cf with
-  | (_ :: _) as m => FBody (encode_form m)
-  | [] => match ordered with
-          | [] => FNone
-          | _ => match encode_ordered ordered with
-                 | Some b => FBody b
-                 | None => FBadOrdered
-                 end
-          end
+  let m := merged_form rf cf in
+  match ordered with
+  | [] => match m with [] => FNone | _ => FBody (encode_form m) end
+  | _ => if Nat.even (length ordered)
+         then FBody (encode_pairs (pair_up ordered ++ flatten (sort_form m)))
+         else FBadOrdered
   end.
+
+(* util.IsXMLType *)
+Definition is_xml_type (ct : bytes) : bool := contains_sub (bs "xml") ct.
+
+(* handleMarshalBody: request-level Content-Type, else client-level; XML iff it contains
+   "xml", otherwise JSON; with no Content-Type anywhere: JSON and the JSON content type *)
+Inductive marshaller := MJson | MXml.
+Definition choose_marshaller (rct cct : bytes) : marshaller * option bytes :=
+  let ct := match rct with [] => cct | _ => rct end in
+  match ct with
+  | [] => (MJson, Some json_ct)
+  | _ => (if is_xml_type ct then MXml else MJson, None)
+  end.
+
+Record breq := {
+  q_method : bytes;
+  q_allow_get : bool;             (* Client.AllowGetMethodPayload *)
+  q_multipart : bool;             (* Request.isMultiPart *)
+  q_rform : form;                 (* Request.FormData *)
+  q_cform : form;                 (* Client.FormData *)
+  q_ordered : list bytes;         (* Request.OrderedFormData *)
+  q_key_order : list bytes;       (* the order in which Go's map iteration visited the keys of
+                                     the merged form (multipart only; observed) *)
+  q_files : list file_upload;     (* Request.uploadFiles *)
+  q_file_fail : bool;             (* some file's GetFileContent / Read fails *)
+  q_custom_boundary : bytes;      (* multipartBoundaryFunc() *)
+  q_random_boundary : bytes;      (* multipart.NewWriter's random boundary *)
+  q_marshal : bool;               (* Request.marshalBody != nil *)
+  q_raw : option bytes;           (* Request.Body set by the caller *)
+  q_rct : bytes;                  (* request-level Content-Type header ([] = none) *)
+  q_cct : bytes                   (* client-level Content-Type header *)
+}.
+
+Inductive plan :=
+| PNone                                          (* nothing prepared: no payload *)
+| PError                                         (* the request fails before anything is sent *)
+| PBody (ct body : bytes)                        (* Content-Type := ct, body *)
+| PMarshal (m : marshaller) (ct : option bytes)  (* marshalled value; Some ct = Content-Type set *)
+| PRaw (body : bytes) (detect : bool).           (* caller's bytes; detect = DetectContentType applies *)
+
+(* writeMultiPart: ordered pairs, then the plain form data in map order, then the files *)
+Definition multipart_fields (q : breq) : list (bytes * bytes) :=
+  pair_up (q_ordered q) ++
+  flat_map (fun k => map (pair k) (lookup k (merged_form (q_rform q) (q_cform q)))) (q_key_order q).
+
+Section Plan.
+  Variable sniff : bytes -> bytes.
+
+  Definition plan_of (q : breq) : plan :=
+    if payload_forbidden (q_method q) (q_allow_get q) then PNone
+    else if q_multipart q then
+      if Nat.odd (length (q_ordered q)) then PError
+      else if q_file_fail q then PError
+      else
+        let b := effective_boundary (q_custom_boundary q) (q_random_boundary q) in
+        PBody (form_data_content_type b) (multipart_body sniff b (multipart_fields q) (q_files q))
+    else
+      match form_plan_of (q_rform q) (q_cform q) (q_ordered q) with
+      | FBody b => PBody form_ct b
+      | FBadOrdered => PError
+      | FNone =>
+          if q_marshal q then
+            let '(m, ct) := choose_marshaller (q_rct q) (q_cct q) in PMarshal m ct
+          else match q_raw q with
+               | Some b => PRaw b (match q_rct q, q_cct q with [], [] => true | _, _ => false end)
+               | None => PNone
+               end
+      end.
+End Plan.
+
+(* the map-iteration order handed in by the harness must be a listing of the merged form's keys *)
+Definition key_order_ok (q : breq) : bool :=
+  let ks := map fst (sort_form (merged_form (q_rform q) (q_cform q))) in
+  let os := map fst (sort_form (map (fun k => (k, [])) (q_key_order q))) in
+  list_eqb bytes_eqb ks os.
